@@ -59,7 +59,7 @@ def sweep(props, tier, only, WT):
                 continue
             t0 = time.time()
             try:
-                r = sh("VERIF_REPO=%s %s/check %s --tier %s" % (WT, ROOT, pid, tier))
+                r = sh("VERIF_STOP_ON_VIOLATION=1 VERIF_REPO=%s %s/check %s --tier %s" % (WT, ROOT, pid, tier))
             finally:
                 sh("git -C %s checkout -- ." % WT)
             out = r.stdout
